@@ -26,6 +26,20 @@ type rawDoc struct {
 	Dg16         []byte `cbor:"dg16,omitempty"`
 }
 
+// cborStrict decodes the envelopes and their payloads: map keys are matched to fields by their exact spelling only,
+// and a map that repeats a key is refused. With the decoder's defaults "MAGIC" (or a second "magic") placed before the
+// real entry was matched to the same field and won, so the entry under the envelope's own key was never looked at.
+var cborStrict = func() cbor.DecMode {
+	dm, err := cbor.DecOptions{
+		DupMapKey:         cbor.DupMapKeyEnforcedAPF,
+		FieldNameMatching: cbor.FieldNameMatchingCaseSensitive,
+	}.DecMode()
+	if err != nil {
+		panic(err)
+	}
+	return dm
+}()
+
 const envelopeMagic = "gmrtd-raw-doc"
 const envelopeVersion uint = 1
 
@@ -109,7 +123,7 @@ func (doc *Document) ToCbor() ([]byte, error) {
 // Document by passing each raw byte slice through its normal constructor.
 func NewDocumentFromCbor(data []byte) (*Document, error) {
 	var env cborEnvelope
-	if err := cbor.Unmarshal(data, &env); err != nil {
+	if err := cborStrict.Unmarshal(data, &env); err != nil {
 		return nil, fmt.Errorf("[NewDocumentFromCbor] cbor.Unmarshal(envelope) error: %w", err)
 	}
 
@@ -126,7 +140,7 @@ func NewDocumentFromCbor(data []byte) (*Document, error) {
 	}
 
 	var raw rawDoc
-	if err := cbor.Unmarshal(env.Payload, &raw); err != nil {
+	if err := cborStrict.Unmarshal(env.Payload, &raw); err != nil {
 		return nil, fmt.Errorf("[NewDocumentFromCbor] cbor.Unmarshal(rawDoc) error: %w", err)
 	}
 
